@@ -14,8 +14,9 @@ git -C /repo worktree add -q --detach "$d" HEAD || exit 3
 cleanup() { git -C /repo worktree remove --force "$d"; }
 trap cleanup EXIT
 cp "$src/OUT/patch.diff" "$out/patch.diff"
-cp "$src/OUT/seeded_demo_test.go" "$out/seeded_demo_test.go.txt" 2>/dev/null || cp "$src/seeded_demo_test.go" "$out/seeded_demo_test.go.txt"
-cp "$src/OUT/meta.json" "$out/agent_meta.json" 2>/dev/null
+cp "$src/OUT/seeded_demo_test.go" "$out/seeded_demo_test.go.txt" 2>/dev/null || cp "$src/OUT/demo_test.go.txt" "$out/seeded_demo_test.go.txt" 2>/dev/null || cp "$src/seeded_demo_test.go" "$out/seeded_demo_test.go.txt"
+cp "$src/OUT/meta.json" "$out/agent_meta.json" 2>/dev/null || cp "$src/OUT/agent_meta.json" "$out/agent_meta.json" 2>/dev/null
+mkdir -p /tmp/seed
 res="$out/verification.txt"; : > "$res"
 ( cd "$d" && git apply "$out/patch.diff" ) || { echo "patch does not apply" | tee -a "$res"; exit 3; }
 ( cd "$d" && go build ./... ) && echo "builds: yes" >> "$res" || { echo "builds: NO" | tee -a "$res"; exit 3; }
